@@ -1,7 +1,11 @@
 """C15  Distribution results truthfully account for the requested power.
 
 C15.ID    accounting identity as a term normal form: succeeded + failed + excess == request.power
-          for every Success/PartialFailure constructed by the battery and PV managers.
+          for every Success/PartialFailure constructed by the battery and PV managers -- each result type on its
+          own: figures computed once ahead of the choice of result type are read at each constructor (in a Success,
+          which is only built when the failed set is empty, the failed-power accumulator is zero); and the excess a PV
+          result reports is the ledger the water-filling hands in (request.power - Σ set-points), with nothing of the
+          per-call outcomes (failed / succeeded power) folded into it.
 C15.FAIL  failure totality on the exception-aware CFG: every way of leaving task.result()
           through an exception (Exception family or CancelledError) is caught and reaches the
           failed-power and failed-set updates exactly once; the success path reaches neither; no
@@ -117,6 +121,66 @@ def _site(cfg: CFG, fn: FuncInfo, c: ast.AST) -> int:
     return sites[0]
 
 
+def failed_accumulators(prog: Program, fn: FuncInfo, cfg: CFG) -> tuple[str, str] | None:
+    """(failed-power local, failed-set local) that flow into the PartialFailure(s) built by `fn`, when they are
+    one pair of plain locals whose only writers are the ones C15.FAIL judges: a zero start, `fp += X[key]`
+    accumulation, or the pair handed back by an awaited method of the same object.  None otherwise."""
+    got: set[tuple[str | None, str | None]] = set()
+    for c in all_ctors(fn.node):
+        if ctor_kind(c) != "PartialFailure":
+            continue
+        _k, f = ctor_fields(prog, fn, c)
+        site = _site(cfg, fn, c)
+        fp = flow_eval(cfg, site, f["failed_power"]).as_atom()
+        fs = set_term(cfg, site, f["failed_components"])
+        got.add((fp if fp is not None and fp.isidentifier() else None, fs[1] if fs[0] == "name" else None))
+    if len(got) != 1:
+        return None
+    (fp, fs), = got
+    if fp is None or fs is None or fp == fs:
+        return None
+    te = TermEval()
+    for n in cfg.nodes:
+        if n.ast is None or n.kind not in ("stmt", "for", "with") or not any(u(w) == fp for w in node_writes(cfg, n.id)):
+            continue
+        s = n.ast
+        nd = name_delta(s, te) if n.kind == "stmt" else None
+        if nd is not None and nd[0] == fp and subscript_atom(nd[1]) is not None:
+            continue
+        val = s.value if isinstance(s, (ast.Assign, ast.AnnAssign)) else None
+        tgt = (s.targets[0] if len(s.targets) == 1 else None) if isinstance(s, ast.Assign) else getattr(s, "target", None)
+        if n.kind == "stmt" and val is not None and isinstance(tgt, ast.Name) and te.ev(val).is_zero():
+            continue
+        call = _unawait(val)
+        if n.kind == "stmt" and isinstance(tgt, (ast.Tuple, ast.List)) and isinstance(call, ast.Call) \
+                and isinstance(call.func, ast.Attribute) and u(call.func.value) == "self" \
+                and {fp, fs} <= {u(e) for e in tgt.elts}:
+            continue
+        return None
+    return fp, fs
+
+
+def nothing_failed(prog: Program, fn: FuncInfo, cfg: CFG, c: ast.Call) -> str | None:
+    """The failed-power local that is known to be zero where the Success `c` is built: `c` is only evaluated when the
+    failed set is empty, and (C15.FAIL: starts at zero, grows exactly in the iterations that grow the failed set; C15.FROZEN:
+    the set never shrinks) the failed power of a request whose failed set is empty is zero.  So a figure shared by both
+    result types (`succeeded = request - excess - failed` computed once, ahead of the choice) is read in the Success arm
+    as what it is there."""
+    if ctor_kind(c) != "Success":
+        return None
+    acc = failed_accumulators(prog, fn, cfg)
+    if acc is None or not guarded_by_emptiness(cfg, _site(cfg, fn, c), c, acc[1], want_nonempty=False):
+        return None
+    return acc[0]
+
+
+def without_atom(p: Poly, atom: str | None) -> Poly:
+    """`p` with `atom` := 0."""
+    if atom is None:
+        return p
+    return Poly({m: k for m, k in p.terms.items() if all(a != atom for a, _e in m)})
+
+
 def check_identity(run: Run, prog: Program) -> None:
     n_ctor = 0
     for cq in (BM, PV):
@@ -150,13 +214,19 @@ def check_identity(run: Run, prog: Program) -> None:
                 total = Poly()
                 for k in need:
                     total = total + flow_eval(cfg, site, fields[k], hook)
+                # a Success is built when nothing failed: the failed power is zero there
+                total = without_atom(total, nothing_failed(prog, m, cfg, c))
                 ok = total == want
                 detail = ""
                 if not ok:
                     zero_fields = [f"self.{a.attr}" for k in need for a in ast.walk(fields[k])
                                    if isinstance(a, ast.Attribute) and u(a.value) == "self"
                                    and a.attr in consts]
-                    detail = (f"{' + '.join(need)} normalises to `{total!r}`, not `{req}.power`"
+                    detail = (f"{' + '.join(need)} normalises to `{total!r}`, not `{req}.power` (off by `{total - want!r}`: "
+                              "that much of the request is reported twice, or not at all).  The identity is demanded of every "
+                              "result that is constructed: a figure computed once for both result types must also be right "
+                              "when the failed power is not zero (an excess derived as request - succeeded contains the "
+                              "failed set-points a second time)"
                               + (f"; note {sorted(set(zero_fields))} is only ever assigned "
                                  "a zero constant in this class" if zero_fields else ""))
                 run.check(ok, "C15.ID", m.qual,
@@ -1095,6 +1165,38 @@ CONTROLS = [
      "microgrid._power_distributing._component_managers._pv_inverter_manager._pv_inverter_manager",
      "            allocations[inv_id] = allocated_power\n            remaining_power -= allocated_power\n",
      "            allocations[inv_id] = allocated_power\n", "C15.ID"),
+    # figures shared by both result types, computed once ahead of the choice: right for Success (nothing failed), but the
+    # PartialFailure reports the failed set-points in failed_power AND in excess_power
+    ("PV figures hoisted above the choice of result type, excess derived as request - succeeded",
+     "microgrid._power_distributing._component_managers._pv_inverter_manager._pv_inverter_manager",
+     "        if failed_components:\n            await self._results_sender.send(\n                PartialFailure(\n"
+     "                    failed_components=failed_components,\n                    succeeded_components=succeeded_components,\n"
+     "                    failed_power=failed_power,\n"
+     "                    succeeded_power=request.power - remaining_power - failed_power,\n"
+     "                    excess_power=remaining_power,\n                    request=request,\n                )\n            )\n"
+     "            return\n        await self._results_sender.send(\n            Success(\n"
+     "                succeeded_components=succeeded_components,\n"
+     "                succeeded_power=request.power - remaining_power,\n                excess_power=remaining_power,\n",
+     "        succeeded_power = request.power - remaining_power - failed_power\n"
+     "        excess_power = request.power - succeeded_power\n"
+     "        if failed_components:\n            await self._results_sender.send(\n                PartialFailure(\n"
+     "                    failed_components=failed_components,\n                    succeeded_components=succeeded_components,\n"
+     "                    failed_power=failed_power,\n"
+     "                    succeeded_power=succeeded_power,\n"
+     "                    excess_power=excess_power,\n                    request=request,\n                )\n            )\n"
+     "            return\n        await self._results_sender.send(\n            Success(\n"
+     "                succeeded_components=succeeded_components,\n"
+     "                succeeded_power=succeeded_power,\n                excess_power=excess_power,\n",
+     "C15.ID"),
+    # the three figures still add up, but the failed set-points are moved from the excess into succeeded_power: the
+    # excess that is reported is not the ledger of the water-filling
+    ("PV excess reduced by the failed power while succeeded_power keeps it",
+     "microgrid._power_distributing._component_managers._pv_inverter_manager._pv_inverter_manager",
+     "                    succeeded_power=request.power - remaining_power - failed_power,\n"
+     "                    excess_power=remaining_power,\n",
+     "                    succeeded_power=request.power - remaining_power,\n"
+     "                    excess_power=remaining_power - failed_power,\n",
+     "C15.ID"),
     ("succeeded set not reduced by failed", "microgrid._power_distributing._component_managers._battery_manager",
      "succeed_batteries = set(battery_distribution.keys()) - failed_batteries",
      "succeed_batteries = set(battery_distribution.keys())", "C15.SETS"),
@@ -1184,13 +1286,41 @@ def check_pv_pairing(run: Run, prog: Program, info: dict[str, dict[str, str]]) -
         return  # the failed bookkeeping of _set_api_power was not identified: reported there
     cfg_sa = CFG(sa.node, sa.file)
     rem_params: set[str | None] = set()
+    params = method_params(sa)
+    split = sa.qual != dp.qual
+    acc = failed_accumulators(prog, sa, cfg_sa)
+    known = set(params) | {f"{request_param(sa)}.power"} | ({acc[0]} if acc else set())   # terms whose role is known
     for c in all_ctors(sa.node):
-        _k, f = ctor_fields(prog, sa, c)
-        rem_params.add(flow_eval(cfg_sa, _site(cfg_sa, sa, c), f["excess_power"]).as_atom())
+        kind, f = ctor_fields(prog, sa, c)
+        # (in a Success the failed power is zero: a figure shared with PartialFailure is read as what it is there)
+        ex = without_atom(flow_eval(cfg_sa, _site(cfg_sa, sa, c), f["excess_power"]), nothing_failed(prog, sa, cfg_sa, c))
+        a = ex.as_atom()
+        # The excess that is reported must be the ledger the water-filling hands in (request - Σ set-points), in every
+        # result type.  When it is a sum of terms of known role (parameters, request.power, the failed power) that is NOT that one parameter, the
+        # other terms are decided, not unknown: they are part of the request that is also reported as succeeded / failed
+        # (counted twice), or a part of the ledger that is dropped.
+        ledgers = sorted(x for x in ex.atoms() if x in params and x != sa_info["alloc"] and ex.coeff_of(x) == 1)
+        readable = all(x in known for x in ex.atoms())
+        if split and (a is None or a not in params) and readable and len(ledgers) <= 1:
+            led = ledgers[0] if ledgers else None
+            extra = ex - Poly.atom(led) if led else ex
+            run.violation(
+                "C15.ID", sa.qual, f"{kind}(excess_power={u(f['excess_power'])})",
+                f"the excess power reported by this {kind} normalises to `{ex!r}`"
+                + (f", not to the excess ledger `{led}` that {dp.name} hands in (request.power minus every set-point that "
+                   f"is commanded): `{extra!r}` is folded into it" if led else
+                   f", which does not contain the excess ledger handed in by {dp.name} at all")
+                + ".  excess_power is the part of the request no set-point was issued for; it does not depend on how the "
+                "calls ended, so the failed power, the succeeded power or the request may not appear in it -- whatever is "
+                "added is reported twice (succeeded + failed + excess != request), whatever is left out is not reported",
+                node=c, file=sa.file)
+            a = led
+            if a is None:
+                return   # no ledger to pair the allocations with; reported
+        rem_params.add(a)
     if sa.qual == dp.qual:
         # merged with the public method: its early answers report the request itself, not the ledger
         rem_params = {a for a in rem_params if isinstance(a, str) and a.isidentifier()}
-    params = method_params(sa)
     req = request_param(dp)
     if sa.qual == dp.qual:
         # sending and reporting happen in the public method itself: the ledger / map are its locals
@@ -1209,6 +1339,15 @@ def check_pv_pairing(run: Run, prog: Program, info: dict[str, dict[str, str]]) -
             raise AnalysisError(f"{dp.qual}: expected one call of self.{sa.name}, found {len(calls)}")
         args = bound_args(calls[0], params, f"{dp.qual}: self.{sa.name}(...)")
         ledger, amap = args.get(rem_p), args.get(alloc_p)  # type: ignore[arg-type]
+        if ledger is not None and not isinstance(ledger, ast.Name) and isinstance(amap, ast.Name) \
+                and TermEval().ev(ledger).atoms() <= {f"{req}.power"}:
+            # what is passed as the excess is a fixed figure of the request (the view shows the only value of a local that
+            # is never updated): there is no ledger that the allocations are taken off -- every suite that stores a
+            # non-zero set-point is then unpaired, and the figure itself must still be the requested power
+            run.check(TermEval().ev(ledger) == Poly.atom(f"{req}.power"), "C15.ID", dp.qual, f"self.{sa.name}(.., {u(ledger)})",
+                      "the excess handed to the reporting routine does not start as the requested power",
+                      node=calls[0], file=dp.file, instance=f"{dp.qual}: excess ledger starts as request.power")
+            ledger = ast.Name(id=f"<{u(ledger)}: never updated>", ctx=ast.Load())
         if not isinstance(ledger, ast.Name) or not isinstance(amap, ast.Name):
             raise AnalysisError(f"{dp.qual}: excess ledger / allocation map are not passed as locals")
         run.check(u(args.get(request_param(sa))) == req, "C15.ID", dp.qual, "self._set_api_power(request, ...)",
